@@ -2,3 +2,4 @@
 import Aiorpcx.C06.Props
 import Aiorpcx.C13.Props
 import Aiorpcx.C14.Props
+import Aiorpcx.C20.Props
